@@ -91,19 +91,92 @@ def session_id(rng):
     return list(rbytes(rng, rng.choice([0, 0, 1, 16, 31, 32, 32, rng.randrange(33)])))
 
 
-MODELLED_CLIENT_EXT = None
+def host_name(rng):
+    """ASCII host names on which the idna codec is the identity (the part of SNI inside the model), with the
+    boundary shapes: one character, a 63-byte label, 253 bytes in all, a trailing dot, upper case, many labels"""
+    r = rng.random()
+    alphabet = 'abcdefghijklmnopqrstuvwxyz0123456789-_' if rng.random() < 0.5 else \
+        'abcdefghijklmnopqrstuvwxyzABCDEFGHIJKLMNOPQRSTUVWXYZ0123456789-_'
+    if r < 0.35:
+        # lower case, UPPER case and Mixed Case: the name is carried as it is spelled (no case folding on either path)
+        return rng.choice(['example.com', 'a.b.c.example.org', 'x', 'localhost', 'EXAMPLE.COM', 'example.com.', 'a' * 63,
+                           'a' * 63 + '.' + 'b' * 63, '_dmarc.example.net', '127.0.0.1', 'x-n--.example',
+                           'WWW.Example.COM', 'a.B.c', 'Localhost', 'eXaMpLe.CoM.', 'X', 'A' * 63 + '.b'])
+    if r < 0.45:
+        return '.'.join('a' * 63 for _ in range(4))[:253]
+    if r < 0.48:        # many labels (the ceiling of 65530 bytes is exercised once per run by c06.boundary_cases)
+        return '.'.join(rng.choice(alphabet) * rng.choice([1, 62, 63]) for _ in range(rng.choice([10, 30])))
+    labels = []
+    for _ in range(rng.randrange(1, 6)):
+        lb = ''.join(rng.choice(alphabet) for _ in range(rng.choice([1, 2, 5, 12, 63])))
+        labels.append('a' + lb[1:] if lb.lower().startswith('xn--') else lb)
+    name = '.'.join(labels)
+    for ace in ('xn--', 'XN--', 'xN--', 'Xn--'):
+        name = name.replace(ace, 'xm--')
+    return name
+
+
+def key_share_entry(rng, allow_unknown=True):
+    from cryptoparser.tls import extension as ex
+    from cryptodatahub.tls.algorithm import TlsNamedCurve
+    from cryptoparser.tls.grease import TlsInvalidTypeTwoByte
+    if allow_unknown and rng.random() < 0.25:
+        known = {m.value.code for m in TlsNamedCurve}
+        code = rng.choice(list(TlsInvalidTypeTwoByte.get_grease_enum())).value.code if rng.random() < 0.6 else rng.randrange(65536)
+        while code in known:
+            code = rng.randrange(65536)
+        return ex.TlsKeyShareEntryInvalidType(TlsInvalidTypeTwoByte(code), bytearray(rbytes(rng, rng.choice([0, 1, 1, 32, 300]))))
+    return ex.TlsKeyShareEntry(rng.choice(list(TlsNamedCurve)),
+                               list(rbytes(rng, rng.choice([1, 32, 32, 65, 97, 133, 1216, rng.randrange(1, 70)]))))
+
+
+def protocol_names(rng, enum_class, ceiling=None):
+    """1.. names, repetitions allowed; rarely a few hundred of them; with `ceiling` a list filled up to that many bytes
+    (inside an extension the 2-byte list prefix leaves 2^16-3 bytes for ALPN; the NPN list IS the extension data) -
+    the ceilings are exercised once per run by c06.boundary_cases, not by the random generators"""
+    members = list(enum_class)
+    if ceiling is not None or rng.random() < 0.02:
+        names = []
+        size = 0
+        target = ceiling if ceiling is not None else rng.choice([600, 1500])
+        while True:
+            m = rng.choice(members)
+            if size + 1 + len(m.value.code) > target:
+                break
+            names.append(m)
+            size += 1 + len(m.value.code)
+        return names
+    return [rng.choice(members) for _ in range(rng.choice([1, 1, 2, 3, 5, len(members)]))]
+
+
+def sct(rng):
+    import datetime as dt
+    import dateutil.tz
+    from cryptoparser.common.x509 import SignedCertificateTimestamp, CtVersion
+    from cryptodatahub.common.stores import CertificateTransparencyLog
+    from cryptodatahub.tls.algorithm import TlsSignatureAndHashAlgorithm
+    if rng.random() < 0.5:
+        log_id = bytes(rng.choice(list(CertificateTransparencyLog)).value.log_id.value)
+    else:
+        log_id = rbytes(rng, 32)
+    millis = rng.choice([0, 1, 999, 1000, 1234567890123, (2 ** 32 - 1) * 1000 + 999, rng.randrange(2 ** 32) * 1000 + rng.randrange(1000)])
+    when = dt.datetime.fromtimestamp(millis // 1000, dateutil.tz.UTC) + dt.timedelta(milliseconds=millis % 1000)
+    return SignedCertificateTimestamp(
+        version=CtVersion.V1, log=log_id, timestamp=when, extensions=list(rbytes(rng, rng.choice([0, 0, 0, 1, 5]))),
+        signature_algorithm=rng.choice(list(TlsSignatureAndHashAlgorithm)),
+        signature=list(rbytes(rng, rng.choice([0, 1, 64, 71, 72, 256]))))
 
 
 def client_extension(rng, modelled_only=True):
+    """every extension class of the client variant (all are inside the model; `modelled_only` is kept for callers)"""
     from cryptoparser.tls import extension as ex
     from cryptodatahub.tls.algorithm import (TlsNamedCurve, TlsECPointFormat, TlsSignatureAndHashAlgorithm,
                                              TlsPskKeyExchangeMode, TlsCertificateCompressionAlgorithm, TlsExtensionType)
     from cryptoparser.tls.grease import TlsInvalidTypeOneByte, TlsInvalidTypeTwoByte
     kinds = ['groups', 'points', 'sigalgs', 'sigalgs_cert', 'delegated', 'psk', 'compress', 'reneg', 'ticket', 'padding',
              'rsl', 'versions', 'ems', 'etm', 'channel', 'short', 'npn', 'sct', 'unparsed_grease', 'unparsed_unknown',
-             'unparsed_known']
-    if not modelled_only:
-        kinds += ['sni', 'alpn', 'keyshare', 'status', 'tokenbinding']
+             'unparsed_known', 'sni', 'sni', 'alpn', 'alpn', 'alps', 'keyshare', 'keyshare', 'keyshare_reserved', 'status',
+             'status', 'tokenbinding', 'tokenbinding']
     k = rng.choice(kinds)
     if k == 'groups':
         return ex.TlsExtensionEllipticCurves(coded_items(rng, TlsNamedCurve, TlsInvalidTypeTwoByte, rng.randrange(1, 8)))
@@ -164,31 +237,34 @@ def client_extension(rng, modelled_only=True):
         cands = [m for m in TlsExtensionType if m.value.code not in parsed]
         return ex.TlsExtensionUnparsed(TlsInvalidTypeTwoByte(rng.choice(cands).value.code), bytearray(rbytes(rng, rlen(rng, 30))))
     if k == 'sni':
-        return ex.TlsExtensionServerNameClient(rng.choice(['example.com', 'a.b.c.example.org', 'x', 'localhost']))
-    if k == 'alpn':
+        return ex.TlsExtensionServerNameClient(host_name(rng))
+    if k in ('alpn', 'alps'):
         from cryptodatahub.tls.algorithm import TlsProtocolName
-        return ex.TlsExtensionApplicationLayerProtocolNegotiation(rng.sample(list(TlsProtocolName), rng.randrange(1, 4)))
-    if k == 'keyshare':
-        entries = [ex.TlsKeyShareEntry(rng.choice(list(TlsNamedCurve)), list(rbytes(rng, rng.randrange(1, 70))))
-                   for _ in range(rng.randrange(0, 3))]
-        return ex.TlsExtensionKeyShareClient(entries)
+        cls = ex.TlsExtensionApplicationLayerProtocolNegotiation if k == 'alpn' else ex.TlsExtensionApplicationLayerProtocolSettings
+        return cls(protocol_names(rng, TlsProtocolName))
+    if k in ('keyshare', 'keyshare_reserved'):
+        cls = ex.TlsExtensionKeyShareClient if k == 'keyshare' else ex.TlsExtensionKeyShareReservedClient
+        return cls([key_share_entry(rng) for _ in range(rng.choice([0, 1, 1, 2, 3]))])
     if k == 'status':
         return ex.TlsExtensionCertificateStatusRequestClient(
-            [ex.TlsCertificateStatusRequestResponderId(list(rbytes(rng, rng.randrange(1, 20)))) for _ in range(rng.randrange(0, 3))],
-            list(rbytes(rng, rng.randrange(0, 10))))
+            [ex.TlsCertificateStatusRequestResponderId(list(rbytes(rng, rng.choice([1, 2, 20, 40]))))
+             for _ in range(rng.choice([0, 0, 1, 3]))],
+            list(rbytes(rng, rng.choice([0, 0, 1, 10]))))
     if k == 'tokenbinding':
         from cryptodatahub.tls.algorithm import TlsTokenBindingParamater
-        return ex.TlsExtensionTokenBinding(ex.TlsTokenBindingProtocolVersion(rng.randrange(256), rng.randrange(256)),
-                                           rng.sample(list(TlsTokenBindingParamater), rng.randrange(1, 3)))
+        return ex.TlsExtensionTokenBinding(
+            ex.TlsTokenBindingProtocolVersion(rng.choice([0, 1, 255, rng.randrange(256)]), rng.choice([0, 13, 255])),
+            coded_items(rng, TlsTokenBindingParamater, TlsInvalidTypeOneByte, rng.choice([1, 1, 2, 3, 255])))
     raise AssertionError(k)
 
 
 def server_extension(rng, modelled_only=True):
     from cryptoparser.tls import extension as ex
-    from cryptodatahub.tls.algorithm import TlsECPointFormat, TlsExtensionType
+    from cryptoparser.common.x509 import SignedCertificateTimestampList
+    from cryptodatahub.tls.algorithm import TlsECPointFormat, TlsExtensionType, TlsNamedCurve
     from cryptoparser.tls.grease import TlsInvalidTypeOneByte, TlsInvalidTypeTwoByte
     kinds = ['points', 'reneg', 'ticket', 'rsl', 'version', 'ems', 'etm', 'channel', 'sni', 'status', 'unparsed_unknown',
-             'unparsed_known']
+             'unparsed_known', 'keyshare', 'keyshare', 'keyshare_hrr', 'keyshare_hrr', 'alpn', 'alpn', 'npn', 'npn', 'sct', 'sct']
     k = rng.choice(kinds)
     if k == 'points':
         return ex.TlsExtensionECPointFormats(coded_items(rng, TlsECPointFormat, TlsInvalidTypeOneByte, rng.randrange(1, 4)))
@@ -210,6 +286,20 @@ def server_extension(rng, modelled_only=True):
         return ex.TlsExtensionServerNameServer()
     if k == 'status':
         return ex.TlsExtensionCertificateStatusRequestServer()
+    if k == 'keyshare':       # ServerHello: KeyShareEntry server_share
+        return ex.TlsExtensionKeyShareServer(key_share_entry(rng, allow_unknown=False))
+    if k == 'keyshare_hrr':   # HelloRetryRequest: NamedGroup selected_group (two bytes of extension data)
+        return ex.TlsExtensionKeyShareClientHelloRetry(rng.choice(list(TlsNamedCurve)))
+    if k == 'alpn':           # RFC 7301: the server's list holds exactly one name; the class takes any
+        from cryptodatahub.tls.algorithm import TlsProtocolName
+        names = protocol_names(rng, TlsProtocolName)
+        return ex.TlsExtensionApplicationLayerProtocolNegotiation(names[:1] if rng.random() < 0.7 else names)
+    if k == 'npn':
+        from cryptodatahub.tls.algorithm import TlsNextProtocolName
+        return ex.TlsExtensionNextProtocolNegotiationServer(protocol_names(rng, TlsNextProtocolName))
+    if k == 'sct':
+        return ex.TlsExtensionSignedCertificateTimestampServer(
+            SignedCertificateTimestampList([sct(rng) for _ in range(rng.choice([0, 1, 1, 2, 3]))]))
     if k == 'unparsed_unknown':
         known = {m.value.code for m in TlsExtensionType}
         c = rng.randrange(65536)
@@ -247,10 +337,46 @@ def client_hello(rng, modelled_only=True):
         empty_renegotiation_info_scsv=rng.random() < 0.5)
 
 
+def key_share_server_extension(rng, form=None):
+    """key_share of the server side in one of its two forms: the ServerHello share or the two-byte selected group of a
+    HelloRetryRequest"""
+    from cryptoparser.tls import extension as ex
+    from cryptodatahub.tls.algorithm import TlsNamedCurve
+    form = form or rng.choice(['share', 'retry'])
+    if form == 'retry':
+        return ex.TlsExtensionKeyShareClientHelloRetry(rng.choice(list(TlsNamedCurve)))
+    return ex.TlsExtensionKeyShareServer(key_share_entry(rng, allow_unknown=False))
+
+
+def server_extension_list(rng):
+    """extensions of a ServerHello / HelloRetryRequest; every third list starts with key_share (either form) FOLLOWED by
+    another extension, so that a class that reads beyond its own data, or the wrong class of the two, is noticed"""
+    exts = [server_extension(rng) for _ in range(rng.choice([0, 0, 1, 3, 5]))]
+    if rng.random() < 0.34:
+        follower = server_extension(rng)
+        while follower.extension_type.value.code == 51:
+            follower = server_extension(rng)
+        exts = [key_share_server_extension(rng), follower] + exts
+    return distinct_types(exts)
+
+
+def extensions_server(rng):
+    from cryptoparser.tls import extension as ex
+    exts = server_extension_list(rng)
+    if not any(e.extension_type.value.code == 51 for e in exts):
+        exts = distinct_types([key_share_server_extension(rng)] + exts + [ex.TlsExtensionExtendedMasterSecret()])
+    return ex.TlsExtensionsServer(exts)
+
+
+def extensions_client(rng):
+    from cryptoparser.tls import extension as ex
+    return ex.TlsExtensionsClient(distinct_types([client_extension(rng) for _ in range(rng.choice([1, 2, 4, 8]))]))
+
+
 def server_hello(rng, retry=False):
     from cryptoparser.tls.subprotocol import TlsHandshakeServerHello, TlsHandshakeHelloRetryRequest
     from cryptodatahub.tls.algorithm import TlsCipherSuite, TlsCompressionMethod
-    exts = distinct_types([server_extension(rng) for _ in range(rng.choice([0, 0, 1, 3, 5]))])
+    exts = server_extension_list(rng)
     if retry:
         return TlsHandshakeHelloRetryRequest(
             cipher_suite=rng.choice(list(TlsCipherSuite)), protocol_version=version(rng), random_bytes=hello_random(rng),
@@ -283,9 +409,129 @@ def server_hello_done(rng):
     return TlsHandshakeServerHelloDone()
 
 
+def certificate_request(rng):
+    """RFC 5246 7.4.4: certificate_types<1..2^8-1>, supported_signature_algorithms<2..2^16-2> (TLS 1.2 only),
+    certificate_authorities<0..2^16-1> of DistinguishedName<1..2^16-1>"""
+    from cryptoparser.tls.subprotocol import (TlsHandshakeCertificateRequest, TlsClientCertificateType,
+                                              TlsDistinguishedName)
+    from cryptodatahub.tls.algorithm import TlsSignatureAndHashAlgorithm
+    from cryptoparser.tls.grease import TlsInvalidTypeTwoByte
+    all_types = list(TlsClientCertificateType)
+    types = [rng.choice(all_types) for _ in range(rng.choice([1, 1, 2, 3, len(all_types), 255]))]
+    cas = [TlsDistinguishedName(list(rbytes(rng, rng.choice([1, 2, 30, 120, 300]))))
+           for _ in range(rng.choice([0, 0, 1, 2, 5]))]
+    algs = None if rng.random() < 0.4 else coded_items(rng, TlsSignatureAndHashAlgorithm, TlsInvalidTypeTwoByte,
+                                                       rng.choice([1, 1, 2, 5, 12]))
+    return TlsHandshakeCertificateRequest(types, cas, algs)
+
+
 def handshake(rng):
     return rng.choice([client_hello, client_hello, server_hello, lambda r: server_hello(r, True), certificate,
-                       server_key_exchange, certificate_status, server_hello_done])(rng)
+                       server_key_exchange, certificate_status, server_hello_done, certificate_request])(rng)
+
+
+# ------------------------------------------------------------------------------------------------
+# wire inputs no compose() of the library produces (non-canonical, malformed at a chosen field)
+# ------------------------------------------------------------------------------------------------
+
+def _u(n, v):
+    return int(v).to_bytes(n, 'big')
+
+
+def _ext(t, body):
+    return _u(2, t) + _u(2, len(body)) + body
+
+
+def raw_sct(rng, version=0, ts=None, alg=None, tail=b''):
+    from cryptodatahub.tls.algorithm import TlsSignatureAndHashAlgorithm
+    ts = _u(8, rng.randrange(2 ** 44)) if ts is None else ts
+    alg = _u(2, rng.choice(list(TlsSignatureAndHashAlgorithm)).value.code) if alg is None else alg
+    ext = rbytes(rng, rng.choice([0, 0, 3]))
+    sig = rbytes(rng, rng.choice([0, 8, 70]))
+    blob = _u(1, version) + rbytes(rng, 32) + ts + _u(2, len(ext)) + ext + alg + _u(2, len(sig)) + sig + tail
+    return _u(2, len(blob)) + blob
+
+
+def raw_client_extension(rng):
+    """SNI outside the identity part of the idna codec, wrong name type, inconsistent list length; ALPN with a name the
+    table lacks / an empty name / an empty list; key_share with an empty key; status_request of another type; ..."""
+    k = rng.randrange(14)
+    if k == 0:
+        host = rng.choice([b'xn--bcher-kva.example', b'XN--BCHER-KVA.example', b'b\xc3\xbccher.example', b'a' * 64, b'a..b',
+                           b'.a', b'a.' + b'b' * 64 + b'.c', b'\xff\xfe', b'a' * 63 + b'.', b'xn--', b'ab--c.xn--a'])
+        return _ext(0, _u(2, 3 + len(host)) + b'\x00' + _u(2, len(host)) + host)
+    if k == 1:      # name type 1, list length 0, empty host
+        host = rng.choice([b'example.com', b''])
+        return _ext(0, _u(2, rng.choice([0, 3 + len(host), 65535])) + _u(1, rng.choice([0, 1, 255])) + _u(2, len(host)) + host)
+    if k == 2:      # ALPN: unknown / empty / non-UTF-8 name among known ones
+        names = [b'h2', rng.choice([b'h3', b'', b'\xff\xfe', b'H2', b'http/1.1', b'h2 ']), b'http/1.1']
+        rng.shuffle(names)
+        body = b''.join(_u(1, len(n)) + n for n in names)
+        return _ext(rng.choice([16, 17513]), _u(2, len(body)) + body)
+    if k == 3:      # ALPN: empty list, list shorter/longer than the extension
+        body = rng.choice([b'', b'\x02h2', b'\x02h2\x08http/1.1'])
+        return _ext(16, _u(2, rng.choice([0, len(body), len(body) + 1, max(0, len(body) - 1)])) + body)
+    if k == 4:      # key_share: empty key for a known group, unknown group with empty data, truncated entry
+        entries = rng.choice([_u(2, 29) + _u(2, 0), _u(2, 0x0a0a) + _u(2, 0), _u(2, 29) + _u(2, 32) + rbytes(rng, 31),
+                              _u(2, 29), _u(2, 0x7a7a) + _u(2, 1) + b'\x00' + _u(2, 23) + _u(2, 2) + b'ab'])
+        return _ext(rng.choice([51, 40]), _u(2, len(entries)) + entries)
+    if k == 5:      # status_request: type 2 (ocsp_multi), empty responder id, trailing bytes
+        ids = rng.choice([b'', _u(2, 0), _u(2, 3) + b'abc'])
+        return _ext(5, _u(1, rng.choice([1, 1, 2, 0])) + _u(2, len(ids)) + ids + _u(2, 0) + rng.choice([b'', b'\x00']))
+    if k == 6:      # token_binding: short version, empty parameter list, unknown parameter
+        return _ext(24, rng.choice([b'', b'\x01', b'\x01\x00', b'\x01\x00\x00', b'\x01\x00\x02\x02\x7f']))
+    if k == 7:      # body shorter than what the class reads: the parser runs into the next extension
+        return _ext(rng.choice([0, 16, 51, 5, 24]), b'') + _ext(23, b'')
+    if k == 8:      # SNI whose host is long
+        host = b'.'.join(b'a' * 63 for _ in range(rng.choice([5, 20])))
+        return _ext(0, _u(2, 3 + len(host)) + b'\x00' + _u(2, len(host)) + host)
+    return bytes(client_extension(rng).compose())
+
+
+def raw_server_extension(rng):
+    """key_share of two bytes with an unknown group; a server share with an empty key; SCT list items with another version,
+    an unknown algorithm, trailing bytes inside the blob, (rarely) the all-ones timestamp; NPN with an unknown name"""
+    k = rng.randrange(14)
+    if k == 0:
+        return _ext(51, _u(2, rng.choice([29, 0x0a0a, 0xffff, 0])))
+    if k == 1:
+        return _ext(51, _u(2, rng.choice([29, 23, 0x0a0a])) + _u(2, rng.choice([0, 1, 32])) + rbytes(rng, rng.choice([0, 1, 32])))
+    if k == 2:
+        items = [raw_sct(rng), rng.choice([raw_sct(rng, version=1), raw_sct(rng, alg=b'\xfe\xfe'), raw_sct(rng, tail=b'\x00\x01'),
+                                            raw_sct(rng, ts=_u(8, 2 ** 63 + 12345)), raw_sct(rng)[:20], _u(2, 0)])]
+        rng.shuffle(items)
+        body = b''.join(items)
+        return _ext(18, _u(2, len(body)) + body)
+    if k == 3 and rng.random() < 0.3:
+        body = raw_sct(rng, ts=b'\xff' * 8)
+        return _ext(18, _u(2, len(body)) + body)
+    if k == 4:      # NPN: unknown / empty name, nothing at all
+        names = rng.choice([[b'http/1.1', b'h2'], [b''], [], [b'spdy/3', b'http/1.1'], [b'\xff']])
+        return _ext(13172, b''.join(_u(1, len(n)) + n for n in names))
+    if k == 5:      # ALPN on the server side with an unknown name
+        body = b'\x02h3'
+        return _ext(16, _u(2, len(body)) + body)
+    if k == 6:      # bodies shorter than what the class reads, followed by another extension
+        return _ext(rng.choice([51, 18, 16, 13172]), rng.choice([b'', b'\x00'])) + _ext(23, b'')
+    return bytes(server_extension(rng).compose())
+
+
+def raw_extensions(rng, side):
+    """an extension block of the given side around the raw single extensions"""
+    parts = [raw_client_extension(rng) if side == 'client' else raw_server_extension(rng) for _ in range(rng.choice([1, 2, 3]))]
+    body = b''.join(parts)
+    while len(body) > 65535:
+        parts.pop()
+        body = b''.join(parts)
+    return _u(2, len(body)) + body
+
+
+RAW_INPUTS = [
+    ('TlsExtensionVariantClient', raw_client_extension),
+    ('TlsExtensionVariantServer', raw_server_extension),
+    ('TlsExtensionsClient', lambda r: raw_extensions(r, 'client')),
+    ('TlsExtensionsServer', lambda r: raw_extensions(r, 'server')),
+]
 
 
 # (model class name, generator) for the classes inside the Lean model
@@ -302,7 +548,10 @@ MODELLED_GENERATORS = [
     ('TlsHandshakeServerKeyExchange', server_key_exchange),
     ('TlsHandshakeCertificateStatus', certificate_status),
     ('TlsHandshakeServerHelloDone', server_hello_done),
+    ('TlsHandshakeCertificateRequest', certificate_request),
     ('TlsHandshakeMessageVariant', handshake),
     ('TlsExtensionVariantClient', client_extension),
     ('TlsExtensionVariantServer', server_extension),
+    ('TlsExtensionsClient', extensions_client),
+    ('TlsExtensionsServer', extensions_server),
 ]
